@@ -285,7 +285,7 @@ func (r *rewriter) rewrite() bool {
 			c.Replace(r.goStmt(n))
 			stats["go"]++
 		case *ast.SendStmt:
-			c.Replace(&ast.ExprStmt{X: &ast.CallExpr{Fun: r.vs("Send"), Args: []ast.Expr{n.Chan, n.Value}}})
+			c.Replace(&ast.ExprStmt{X: &ast.CallExpr{Fun: &ast.CallExpr{Fun: r.vs("SendTo"), Args: []ast.Expr{n.Chan}}, Args: []ast.Expr{n.Value}}})
 			stats["send"]++
 		case *ast.UnaryExpr:
 			if n.Op == token.ARROW {
@@ -301,6 +301,7 @@ func (r *rewriter) rewrite() bool {
 				r.fixRecv2(n.Values[0])
 			}
 		case *ast.CallExpr:
+			r.fileReads(n)
 			if id, ok := n.Fun.(*ast.Ident); ok && r.isBuiltin(id, "close") {
 				n.Fun = r.vs("Close")
 				stats["close"]++
@@ -369,6 +370,43 @@ func (r *rewriter) rewrite() bool {
 		astutil.AddNamedImport(r.fset, r.file, "vsched_", vschedPath)
 	}
 	return r.changed
+}
+
+// fileReads gates reads from *os.File (pipes) by the scheduler: the reader is
+// wrapped so that each Read first parks until poll(2) reports the fd readable.
+func (r *rewriter) fileReads(n *ast.CallExpr) {
+	isFile := func(e ast.Expr) bool {
+		t := r.pkg.TypesInfo.TypeOf(e)
+		return t != nil && t.String() == "*os.File"
+	}
+	wrap := func(e ast.Expr) ast.Expr {
+		stats["file-read-gated"]++
+		return &ast.CallExpr{Fun: r.vs("FileReader"), Args: []ast.Expr{e}}
+	}
+	// any *os.File argument passed where an io.Reader parameter is expected
+	if sig, ok := r.pkg.TypesInfo.TypeOf(n.Fun).(*types.Signature); ok {
+		for i, a := range n.Args {
+			if !isFile(a) {
+				continue
+			}
+			var pt types.Type
+			np := sig.Params().Len()
+			switch {
+			case sig.Variadic() && i >= np-1:
+				if sl, ok := sig.Params().At(np - 1).Type().(*types.Slice); ok {
+					pt = sl.Elem()
+				}
+			case i < np:
+				pt = sig.Params().At(i).Type()
+			}
+			if pt != nil && pt.String() == "io.Reader" {
+				n.Args[i] = wrap(a)
+			}
+		}
+	}
+	if sel, ok := n.Fun.(*ast.SelectorExpr); ok && sel.Sel.Name == "Read" && isFile(sel.X) {
+		sel.X = wrap(sel.X)
+	}
 }
 
 func insertable(c *astutil.Cursor) bool {
@@ -506,7 +544,7 @@ func (r *rewriter) selectStmt(n *ast.SelectStmt) ast.Stmt {
 			pre = append(pre, &ast.AssignStmt{Lhs: []ast.Expr{ct}, Tok: token.DEFINE, Rhs: []ast.Expr{s.Chan}})
 			// the value must have the channel's element type: let CaseSend's type inference convert it
 			_ = vt
-			cases = append(cases, &ast.CallExpr{Fun: r.vs("CaseSend"), Args: []ast.Expr{ct, s.Value}})
+			cases = append(cases, &ast.CallExpr{Fun: &ast.CallExpr{Fun: r.vs("CaseSendTo"), Args: []ast.Expr{ct}}, Args: []ast.Expr{s.Value}})
 		case *ast.ExprStmt:
 			u := ast.Unparen(s.X).(*ast.UnaryExpr)
 			ct := r.tmp("c")
@@ -539,6 +577,9 @@ func (r *rewriter) selectStmt(n *ast.SelectStmt) ast.Stmt {
 	def := "false"
 	if hasDefault {
 		def = "true"
+	} else {
+		// keeps the switch a terminating statement exactly when the select was one
+		clauses = append(clauses, &ast.CaseClause{List: nil, Body: []ast.Stmt{&ast.ExprStmt{X: &ast.CallExpr{Fun: ast.NewIdent("panic"), Args: []ast.Expr{&ast.BasicLit{Kind: token.STRING, Value: strconv.Quote("vsched: impossible select index")}}}}}})
 	}
 	args := append([]ast.Expr{ast.NewIdent(def)}, cases...)
 	sw := &ast.SwitchStmt{
